@@ -20,14 +20,34 @@ ASSUMPTIONS = [
 TRUSTED = ["python harness harness/c17.py (generators, scaling of floats to integers, verdict parsing)"]
 
 
+_variant = [0]
+
+
 def _impl(vd, region, coords):
-    """returns ('ok', coords_or_None, region) | ('ValueError',) | ('other', name)"""
+    """returns ('ok', coords_or_None, region) | ('ValueError',) | ('other', name).
+    The container of the region (list / tuple / ndarray) and the shape and memory layout of the
+    coordinate arrays vary from call to call; the result must not depend on them (whether the
+    arguments are left unmodified is C20's business, not checked here)."""
+    _variant[0] += 1
+    v = _variant[0]
+    reg = [list(region), tuple(region), np.array(region, dtype=float)][v % 3]
+    before = [float(x) for x in region]
     try:
         if coords is None:
-            r = vd.longitude_continuity(None, list(region))
+            r = vd.longitude_continuity(None, reg)
             return ("ok", None, [float(x) for x in r])
-        c, r = vd.longitude_continuity([np.array(coords[0], dtype=float), np.array(coords[1], dtype=float)], list(region))
-        return ("ok", [[float(x) for x in c[0]], [float(x) for x in c[1]]], [float(x) for x in r])
+        lon = np.array(coords[0], dtype=float)
+        lat = np.array(coords[1], dtype=float)
+        if lon.size % 2 == 0 and lon.size >= 4 and v % 2:
+            lon = lon.reshape(2, -1)
+            lat = lat.reshape(2, -1)
+            if v % 4 == 1:
+                lon, lat = np.asfortranarray(lon), lat.T.copy().T
+        lon0 = lon.copy()
+        c, r = vd.longitude_continuity([lon, lat], reg)
+        if np.shape(c[0]) != lon.shape:
+            return ("other", "coordinate shape changed")
+        return ("ok", [[float(x) for x in np.ravel(c[0])], [float(x) for x in np.ravel(c[1])]], [float(x) for x in r])
     except ValueError:
         return ("ValueError",)
     except Exception as exc:  # pragma: no cover
